@@ -1,4 +1,7 @@
 import PyTrie.Lemmas.HexEffTree
+import PyTrie.Lemmas.WorldPrune
+import PyTrie.Lemmas.HexCanon2
+import PyTrie.Lemmas.FailAfterNone
 /-! # C06 — pruning is exact, reference counts are true (structural core)
 
 `setE`/`deleteE` are `_set`/`_delete` with the database traffic they cause. The theorems here are
@@ -42,5 +45,76 @@ theorem deleteE_balance (Hs : Hashing) (t : Node) (k : Path) (hrs : RefSound Hs 
 /-- `RefSound` follows from (but is much weaker than) global soundness of reference equality -/
 theorem refSound_of_sound (Hs : Hashing) (hre : ∀ a b, Hs.refEq a b = true → a = b) (t : Node) (k : Path) :
     RefSound Hs t k := Hex.refSound_of_sound Hs hre t k
+
+/-! ## Exact pruning at world level (proved after the first round)
+
+`PruneInv T s`: the root pointer is the hash of the tree; for **every** hash `h` the reference count is
+`occRoot T.tree h` — the number of hashed subtrees below the root with that hash (shared identical
+subtrees counted once per occurrence) plus one for the root, which is stored even when short — and the
+database contains `h` **iff** that number is positive. So: nothing live is ever deleted, nothing dead is
+left behind, the counts are true. -/
+open PyTrie.HexW
+
+/-- the invariant holds for a new pruning trie on an empty database … -/
+theorem prune_invariant_init (Hs : Hashing) (blankRootHash : Hash) :
+    PruneInv Hs blankRootHash { tree := .blank, root := blankRootHash, prune := true }
+      { store := { base := [], cache := none, failAfter := none }, counts := [], pending := [] } :=
+  pruneInv_init Hs blankRootHash
+
+/-- … and every `set` / `delete` (through `_prune_on_success`, `_set_db_value`, `_set_root_node`,
+    `_complete_pruning`) re-establishes it, never raising: **exact pruning is an invariant of the trie's own API** -/
+theorem prune_invariant_step (Hs : Hashing) (blankRootHash : Hash) (T : TrieSt) (hc : Canon T.tree) (key : Bytes)
+    (val : Option Bytes) (s : OpSt) (hfa : s.store.failAfter = none) (hinv : PruneInv Hs blankRootHash T s)
+    (hrs : RefSound Hs T.tree (nibs key))
+    (hblank : isBlank (opTree Hs T key val).1 = false → Hs.hashOf (opTree Hs T key val).1 ≠ blankRootHash) :
+    ∃ T', (opSetDel Hs blankRootHash T key val s).2 = .ok T' ∧
+      T'.tree = (match val with
+        | some v => if v = [] then Hex.delete T.tree (nibs key) else Hex.set T.tree (nibs key) v
+        | none => Hex.delete T.tree (nibs key)) ∧
+      PruneInv Hs blankRootHash T' (opSetDel Hs blankRootHash T key val s).1 :=
+  opSetDel_pruneInv Hs blankRootHash T hc key val s hfa hinv hrs hblank
+
+/-- `regenerate_ref_count()` recomputes exactly these numbers (for hashings whose embedded nodes cannot
+    contain hashed ones — true of rlp + Keccak: `keccak_embedded`), so `ref_count = regenerate_ref_count()` -/
+theorem regenerate_is_true_count (Hs : Hashing) (hemb : EmbeddedLeafy Hs) (t : Node) (h : Hash) :
+    (regen Hs t).count h = occRoot Hs t h := regen_count Hs hemb t h
+
+theorem keccak_embedded : EmbeddedLeafy keccakHashing := keccak_embeddedLeafy
+
+/-- a history of the trie's own API on a pruning trie that started from an empty database: the
+    run-level hypotheses are the no-collision predicates of each step (`RefSound`, and that no node hashes
+    to the blank root); the conclusion is the invariant after the whole history -/
+inductive Reach (Hs : Hashing) (blankRootHash : Hash) : TrieSt → OpSt → Prop where
+  | init : Reach Hs blankRootHash { tree := .blank, root := blankRootHash, prune := true }
+      { store := { base := [], cache := none, failAfter := none }, counts := [], pending := [] }
+  | step (T : TrieSt) (s : OpSt) (key : Bytes) (val : Option Bytes) (T' : TrieSt) :
+      Reach Hs blankRootHash T s →
+      RefSound Hs T.tree (nibs key) →
+      (isBlank (opTree Hs T key val).1 = false → Hs.hashOf (opTree Hs T key val).1 ≠ blankRootHash) →
+      (opSetDel Hs blankRootHash T key val s).2 = .ok T' →
+      Reach Hs blankRootHash T' (opSetDel Hs blankRootHash T key val s).1
+
+theorem reach_invariant (Hs : Hashing) (blankRootHash : Hash) (T : TrieSt) (s : OpSt)
+    (h : Reach Hs blankRootHash T s) :
+    Canon T.tree ∧ s.store.failAfter = none ∧ PruneInv Hs blankRootHash T s := by
+  induction h with
+  | init => exact ⟨trivial, rfl, pruneInv_init Hs blankRootHash⟩
+  | step T s key val T' _ hrs hbl hok ih =>
+    obtain ⟨hc, hfa, hinv⟩ := ih
+    obtain ⟨T'', h1, h2, h3⟩ := opSetDel_pruneInv Hs blankRootHash T hc key val s hfa hinv hrs hbl
+    rw [hok] at h1
+    cases h1
+    refine ⟨?_, ?_, h3⟩
+    · rw [h2]
+      cases val with
+      | none => exact canon_delete _ _ hc
+      | some v =>
+        simp only
+        split
+        · exact canon_delete _ _ hc
+        · next hv => exact canon_set _ _ _ hv hc
+    · -- the failure budget is only consumed by `Store.write`, and `none` stays `none`
+      have := h3.plain
+      exact failAfter_none_preserved Hs blankRootHash T key val s hfa
 
 end PyTrie.Props.C06
